@@ -73,7 +73,8 @@ Record state := {
   conns : list N;
   pmark : option N;                (* inside receive_hash_done, between the memcmp and mark_completed *)
   haves : list N;                  (* have queue *)
-  done : bool
+  done : bool;
+  failc : list (N * N)             (* PeerInfo::failed_counter per peer *)
 }.
 
 Inductive event :=
@@ -89,7 +90,8 @@ Inductive event :=
 | EHashCancel (i : N)                            (* receive_hash_done with NULL *)
 | EMark (i : N)                                  (* FileList::mark_completed + TransferList::hash_succeeded *)
 | EHave (i : N) | EDone
-| EProbe (i : N) (d : list N).                   (* observation: digest of the piece on disk *)
+| EProbe (i : N) (d : list N)
+| ECorrupt (p : N).                               (* DownloadMain::receive_corrupt_chunk(peer) *)                   (* observation: digest of the piece on disk *)
 
 Section Model.
 Variable H : list N -> list N.          (* SHA-1 *)
@@ -216,22 +218,22 @@ Definition set_failed (x : block) (f : list (list N * N)) (c : option N) : block
 
 Definition with_blocks (s : state) (bl : list block) : state :=
   {| store := store s; completed := completed s; blocks := bl; attempts := attempts s; hashing := hashing s;
-     curs := curs s; conns := conns s; pmark := pmark s; haves := haves s; done := done s |}.
+     curs := curs s; conns := conns s; pmark := pmark s; haves := haves s; done := done s; failc := failc s |}.
 Definition with_curs (s : state) (c : list (N * cur)) : state :=
   {| store := store s; completed := completed s; blocks := blocks s; attempts := attempts s; hashing := hashing s;
-     curs := c; conns := conns s; pmark := pmark s; haves := haves s; done := done s |}.
+     curs := c; conns := conns s; pmark := pmark s; haves := haves s; done := done s; failc := failc s |}.
 Definition with_store (s : state) (st : list (list N)) : state :=
   {| store := st; completed := completed s; blocks := blocks s; attempts := attempts s; hashing := hashing s;
-     curs := curs s; conns := conns s; pmark := pmark s; haves := haves s; done := done s |}.
+     curs := curs s; conns := conns s; pmark := pmark s; haves := haves s; done := done s; failc := failc s |}.
 Definition with_hashing (s : state) (h : list N) : state :=
   {| store := store s; completed := completed s; blocks := blocks s; attempts := attempts s; hashing := h;
-     curs := curs s; conns := conns s; pmark := pmark s; haves := haves s; done := done s |}.
+     curs := curs s; conns := conns s; pmark := pmark s; haves := haves s; done := done s; failc := failc s |}.
 Definition with_attempts (s : state) (a : list (N * N)) : state :=
   {| store := store s; completed := completed s; blocks := blocks s; attempts := a; hashing := hashing s;
-     curs := curs s; conns := conns s; pmark := pmark s; haves := haves s; done := done s |}.
+     curs := curs s; conns := conns s; pmark := pmark s; haves := haves s; done := done s; failc := failc s |}.
 Definition with_pmark (s : state) (m : option N) : state :=
   {| store := store s; completed := completed s; blocks := blocks s; attempts := attempts s; hashing := hashing s;
-     curs := curs s; conns := conns s; pmark := m; haves := haves s; done := done s |}.
+     curs := curs s; conns := conns s; pmark := m; haves := haves s; done := done s; failc := failc s |}.
 
 (* ---------- connection goes away: RequestList::clear ---------- *)
 Definition disc (s : state) (p : N) : state :=
@@ -241,7 +243,7 @@ Definition disc (s : state) (p : N) : state :=
              end in
   let bl2 := map (fun x => set_queued x (removeN p (b_queued x))) bl1 in
   {| store := store s; completed := completed s; blocks := bl2; attempts := attempts s; hashing := hashing s;
-     curs := del_cur (curs s) p; conns := removeN p (conns s); pmark := pmark s; haves := haves s; done := done s |}.
+     curs := del_cur (curs s) p; conns := removeN p (conns s); pmark := pmark s; haves := haves s; done := done s; failc := failc s |}.
 
 (* ---------- Block::completed (the leader p finished the block) ---------- *)
 Definition invalidate_curs (l : list (N * cur)) (x : block) : list (N * cur) :=
@@ -380,15 +382,27 @@ Definition hash_failed (s : state) (i : N) : state :=
     let (bl2, pc) := retry_blocks i bl1 (piece s i) in
     {| store := upd_nth (store s) (N.to_nat i) (fun _ => pc); completed := completed s; blocks := bl2;
        attempts := set_attempt (attempts s) i 1; hashing := hashing s; curs := curs s; conns := conns s;
-       pmark := pmark s; haves := haves s; done := done s |}
+       pmark := pmark s; haves := haves s; done := done s; failc := failc s |}
   else
     (* BlockList::do_all_failed *)
     {| store := store s; completed := completed s; blocks := upd_piece_blocks (blocks s) i fail_leader;
        attempts := set_attempt (attempts s) i 0; hashing := hashing s; curs := curs s; conns := conns s;
-       pmark := pmark s; haves := haves s; done := done s |}.
+       pmark := pmark s; haves := haves s; done := done s; failc := failc s |}.
 
 Definition all_completed (s : state) : bool :=
   forallb (fun k => memN (N.of_nat k) (completed s)) (seq 0 (N.to_nat npieces)).
+
+Definition failc_of (s : state) (p : N) : N :=
+  match find (fun a => fst a =? p) (failc s) with Some a => snd a | None => 0 end.
+Definition max_failed : N := Params.c01_max_failed.
+
+(* DownloadMain::receive_corrupt_chunk: count, and erase the connection above max_failed *)
+Definition corrupt (s : state) (p : N) : state :=
+  let c := failc_of s p + 1 in
+  let s1 := {| store := store s; completed := completed s; blocks := blocks s; attempts := attempts s; hashing := hashing s;
+               curs := curs s; conns := conns s; pmark := pmark s; haves := haves s; done := done s;
+               failc := (p, c) :: filter (fun a => negb (fst a =? p)) (failc s) |} in
+  if (max_failed <? c) && memN p (conns s) then disc s1 p else s1.
 
 (* ---------- the acceptor ---------- *)
 Definition accept (s : state) (e : event) : option state :=
@@ -398,14 +412,15 @@ Definition accept (s : state) (e : event) : option state :=
         Some {| store := store s; completed := i :: completed s;
                 blocks := filter (fun x => negb (b_idx x =? i)) (blocks s);
                 attempts := filter (fun a => negb (fst a =? i)) (attempts s);
-                hashing := hashing s; curs := curs s; conns := conns s; pmark := None; haves := haves s; done := done s |}
+                hashing := hashing s; curs := curs s; conns := conns s; pmark := None; haves := haves s; done := done s; failc := failc s |}
       else None
   | Some _, _ => None
   | None, EMark _ => None
   | None, EConn p =>
-      if memN p (conns s) then None else
+      (* HandshakeManager / Handshake::prepare_peer_info refuse a peer whose failed counter exceeds max_failed *)
+      if memN p (conns s) || (max_failed <? failc_of s p) then None else
       Some {| store := store s; completed := completed s; blocks := blocks s; attempts := attempts s; hashing := hashing s;
-              curs := curs s; conns := p :: conns s; pmark := None; haves := haves s; done := done s |}
+              curs := curs s; conns := p :: conns s; pmark := None; haves := haves s; done := done s; failc := failc s |}
   | None, EDisc p => if memN p (conns s) then Some (disc s p) else Some s
   | None, ENew i =>
       if (i <? npieces) && negb (listed s i) && negb (memN i (completed s)) then
@@ -472,14 +487,15 @@ Definition accept (s : state) (e : event) : option state :=
   | None, EHave i =>
       if memN i (completed s) && negb (memN i (haves s)) then
         Some {| store := store s; completed := completed s; blocks := blocks s; attempts := attempts s; hashing := hashing s;
-                curs := curs s; conns := conns s; pmark := None; haves := i :: haves s; done := done s |}
+                curs := curs s; conns := conns s; pmark := None; haves := i :: haves s; done := done s; failc := failc s |}
       else None
   | None, EDone =>
       if all_completed s && negb (done s) then
         Some {| store := store s; completed := completed s; blocks := blocks s; attempts := attempts s; hashing := hashing s;
-                curs := curs s; conns := conns s; pmark := None; haves := haves s; done := true |}
+                curs := curs s; conns := conns s; pmark := None; haves := haves s; done := true; failc := failc s |}
       else None
   | None, EProbe i d => if list_eqb (H (piece s i)) d then Some s else None
+  | None, ECorrupt p => Some (corrupt s p)
   end.
 
 Fixpoint run (s : state) (tr : list event) : option state :=
@@ -491,7 +507,7 @@ Fixpoint run (s : state) (tr : list event) : option state :=
 (* initial state: nothing listed; [st0] is what the files contain after the initial hash check, [c0] what it verified *)
 Definition init (st0 : list (list N)) (c0 : list N) : state :=
   {| store := st0; completed := c0; blocks := []; attempts := []; hashing := []; curs := []; conns := [];
-     pmark := None; haves := []; done := false |}.
+     pmark := None; haves := []; done := false; failc := [] |}.
 
 (* ---------- the internal_error checks of the modelled functions, as a predicate on (state, event) ---------- *)
 Definition fatal (s : state) (e : event) : bool :=
